@@ -54,6 +54,8 @@ PROPS = {
                 slices=[S("svc", 90, 1400, ["corr", "sconverge", "loginv", "no_panic"])], assumptions=SERVICE_ASSUMPTIONS),
     "C07": dict(lean=["Orda.Props.C07"], rule="non-trivial: the case contains ≥1 message fault (duplicate request, dropped response, response applied after later exchanges) on a datatype that ≥2 clients push to; distinct command sequences",
                 slices=[S("fault", 90, 1400, ["corr", "sconverge", "loginv", "no_panic"])], assumptions=SERVICE_ASSUMPTIONS),
+    "C08": dict(lean=["Orda.Props.C08"], rule="each case is one scenario re-run with ONE database command of ONE request failing (mode fail) or being the last before the database goes away and the server restarts (mode crash), followed by retries of all clients; non-trivial: the faulted command belongs to a request that pushes operations; distinct = distinct (scenario, request, command, mode)",
+                slices=[S("dbfault", 5, 40, ["corr", "fault_recovers", "no_panic"])], assumptions=SERVICE_ASSUMPTIONS + ["a failed command has no effect (memmongo semantics); a crash is modelled as: no command after the faulted one is executed, then the server process restarts against the same data"]),
     "C06": dict(lean=["Orda.Props.C06"], rule="non-trivial: ≥2 clients pushed to the same datatype and at least one request was a re-push, an empty push or came after other clients' pushes; store dumped and checked after EVERY request; distinct command sequences",
                 slices=[S("svclog", 60, 900, ["corr", "loginv", "no_panic"]), S("mut", 60, 900, ["corr", "loginv", "refused_noop"])], assumptions=SERVICE_ASSUMPTIONS),
     "C13": dict(lean=["Orda.Props.C13"], rule="non-trivial: a case exercises ≥2 entry modes on one key, or a refusal (create on existing / subscribe to missing / other type); distinct command sequences",
@@ -96,6 +98,8 @@ def nontrivial(pid, case):
         syncs = [ln for ln, _ in case if ln.get("k") == "sync"]
         pushers = set(ln.get("c") for ln in syncs if any((p or {}).get("ops") for p in ln.get("obs", {}).get("req", []) or []))
         refused = [ln for ln in syncs if ln.get("obs", {}).get("rpc") or any(((p or {}).get("opt", 0) & 32) for p in (ln.get("obs", {}).get("resp") or []))]
+        if pid == "C08":
+            return "fault" in hdr
         if pid == "C07":
             return any(ln.get("fault") for ln in syncs) and len(pushers) >= 2
         if pid in ("C16",):
